@@ -39,6 +39,7 @@ type c07Scenario struct {
 	SnapBefore bool `json:"snap_before"` // a snapshot exists before the poisoned entry is applied
 	SnapAfter  int  `json:"snap_after"`  // 0: none; 1: snapshot after the restart folding the marked entry; 2: snapshot keeping it in the log copy
 	Offset     bool `json:"offset"`
+	JSON       bool `json:"jsonenc,omitempty"` // the node runs with -pre1.0_protobuf=false (JSON log encoding)
 }
 
 type c07Engine struct{}
@@ -46,6 +47,7 @@ type c07Engine struct{}
 func (c07Engine) Generate(seed uint64, prop, tier string) (json.RawMessage, error) {
 	g := core.NewSource(seed).Stream("gen")
 	sc := c07Scenario{Engine: "c07", SnapBefore: g.Chance(1, 3), SnapAfter: g.Intn(3), Offset: g.Chance(1, 2)}
+	sc.JSON = core.NewSource(seed).Stream("enc").Chance(1, 3)
 	add := func(s c07Step) { sc.Steps = append(sc.Steps, s) }
 	add(c07Step{K: "config"})
 	nsess := g.Range(2, 4)
@@ -124,10 +126,11 @@ const c07Config = "SessionExpiration = \"10m0s\"\nPostMessageCooloff = \"0s\"\n[
 // ---- child side ----
 
 type c07Job struct {
-	Dir    string   `json:"dir"`
-	Offset uint64   `json:"offset"`
-	Ops    []c07Op  `json:"ops"`
-	Out    string   `json:"out"`
+	Dir    string  `json:"dir"`
+	JSON   bool    `json:"jsonenc"`
+	Offset uint64  `json:"offset"`
+	Ops    []c07Op `json:"ops"`
+	Out    string  `json:"out"`
 }
 
 type c07Op struct {
@@ -159,7 +162,8 @@ func c07Child() int {
 	}
 	e1InitFlags()
 	robust.MessageOffset = job.Offset
-	n := &e1Node{idx: 1, dir: job.Dir}
+	*useProtobuf = !job.JSON
+	n := &e1Node{idx: 1, dir: job.Dir, proto: !job.JSON, protoSet: true}
 	out := c07Out{Outputs: map[string]string{}}
 	flush := func() {
 		jb, _ := json.Marshal(&out)
@@ -232,7 +236,7 @@ type c07Run struct {
 	dir   string
 	sc    *c07Scenario
 	log   []*logEntry
-	panic []uint64 // indexes of entries carrying the PANIC command (they only panic if the command gate lets them through)
+	panic []uint64        // indexes of entries carrying the PANIC command (they only panic if the command gate lets them through)
 	died  map[uint64]bool // indexes at which an incarnation actually died (= entries that must be marked)
 	now   time.Time
 }
@@ -242,7 +246,7 @@ func (r *c07Run) violate(class, sig, f string, a ...interface{}) {
 }
 
 func (r *c07Run) child(ops []c07Op) (int, *c07Out, string) {
-	job := c07Job{Dir: r.dir, Ops: ops, Out: filepath.Join(r.root, "child.out"), Offset: robust.MessageOffset}
+	job := c07Job{Dir: r.dir, JSON: r.sc.JSON, Ops: ops, Out: filepath.Join(r.root, "child.out"), Offset: robust.MessageOffset}
 	os.Remove(job.Out)
 	jb, _ := json.Marshal(&job)
 	jf := filepath.Join(r.root, "job.json")
@@ -282,7 +286,8 @@ func (c07Engine) Execute(raw json.RawMessage, prop string) (*core.Result, error)
 	}
 	defer os.RemoveAll(root)
 	e1InitFlags()
-	*useProtobuf = true
+	*useProtobuf = !sc.JSON
+	defer func() { *useProtobuf = true }()
 	robust.MessageOffset = 0
 	if sc.Offset {
 		robust.MessageOffset = prodMessageOffsetC07
@@ -341,9 +346,12 @@ func (c07Engine) Execute(raw json.RawMessage, prop string) (*core.Result, error)
 	}
 	// the entries become durable in the node's raft log (raft stores before it applies)
 	os.MkdirAll(r.dir, 0700)
-	ls, err := raftstore.NewLevelDBStore(filepath.Join(r.dir, "raftlog"), false, true)
+	ls, err := raftstore.NewLevelDBStore(filepath.Join(r.dir, "raftlog"), false, !sc.JSON)
 	if err != nil {
 		return nil, err
+	}
+	if sc.JSON {
+		res.Add("json_encoded_runs", 1)
 	}
 	for _, e := range r.log {
 		if err := ls.StoreLog(&raft.Log{Index: e.Index, Term: 1, Type: e.Type, Data: e.Data}); err != nil {
@@ -444,7 +452,7 @@ func (r *c07Run) isPoison(idx uint64) bool {
 // checkStoredLog: after a death at index dead, the durable raft log holds every entry byte-identical,
 // except the poisoned entries processed so far which carry type MessageOfDeath and are otherwise equal.
 func (r *c07Run) checkStoredLog(dead uint64) bool {
-	ls, err := raftstore.NewLevelDBStore(filepath.Join(r.dir, "raftlog"), false, true)
+	ls, err := raftstore.NewLevelDBStore(filepath.Join(r.dir, "raftlog"), false, !r.sc.JSON)
 	if err != nil {
 		r.violate("log-unreadable", "log-unreadable", "raft log cannot be opened after the crash: %v", err)
 		return false
@@ -473,6 +481,9 @@ func (r *c07Run) checkStoredLog(dead uint64) bool {
 		}
 		if m.Type != want.Type || m.Data != want.Data || m.Session != want.Session || m.ClientMessageId != want.ClientMessageId || m.UnixNano != want.UnixNano || m.Id != want.Id {
 			r.violate("other-entry-changed", "other-entry-changed", "after the crash at index %d, stored entry %d reads %+v, was %+v", dead, e.Index, m, want)
+			if r.died[e.Index] && m.ClientMessageId != want.ClientMessageId {
+				r.res.Violate("C10", "marker-not-set-by-marked-entry", "marked-entry-lost-client-message-id", fmt.Sprintf("the entry marked as message of death at index %d is stored with client message id %d, the message carried %d: on every replay the session's duplicate marker is set to the wrong id and the client's retry of that POST is applied again", e.Index, m.ClientMessageId, want.ClientMessageId), 0)
+			}
 			ok = false
 		}
 	}
@@ -481,7 +492,7 @@ func (r *c07Run) checkStoredLog(dead uint64) bool {
 
 // compareWithTwin: a second replica that only ever sees the poisoned entries already marked.
 func (r *c07Run) compareWithTwin(out *c07Out, when string) {
-	tw := &e1Node{idx: 0, dir: filepath.Join(r.root, fmt.Sprintf("twin%d", r.res.Stats["twin_comparisons"]))}
+	tw := &e1Node{idx: 0, dir: filepath.Join(r.root, fmt.Sprintf("twin%d", r.res.Stats["twin_comparisons"])), proto: !r.sc.JSON, protoSet: true}
 	if err := tw.start(); err != nil {
 		r.res.Inconclusive = "harness: twin: " + err.Error()
 		return
@@ -503,6 +514,18 @@ func (r *c07Run) compareWithTwin(out *c07Out, when string) {
 			r.violate("marked-entry-panics", "marked-entry-panics", "a replica that sees index %d already marked panicked: %v", e.Index, o.panicked)
 			return
 		}
+		if r.died[e.Index] && e.Msg != nil {
+			// "the session's duplicate-detection marker still advances": what the POST handler consults
+			// after the marked entry was skipped is the id of that entry
+			if _, err := tw.irc.GetSession(e.Msg.Session); err == nil {
+				r.res.Add("markers_after_marked_entry_checked", 1)
+				if got := tw.irc.LastPostMessage(e.Msg.Session); got != e.Msg.ClientMessageId {
+					for _, p := range []string{"C07", "C10"} {
+						r.res.Violate(p, "marker-not-advanced", "marker-not-advanced-by-marked-entry", fmt.Sprintf("a replica skipped index %d, marked as message of death (client message id %d), and its duplicate marker for the session reads %d: the client's retry of that POST would be applied (and kill the node) again", e.Index, e.Msg.ClientMessageId, got), 0)
+					}
+				}
+			}
+		}
 		if r.died[e.Index] {
 			if ms, ok := tw.out.Get(robust.Id{Id: robust.IdFromRaftIndex(e.Index)}); ok && len(ms) > 0 {
 				r.violate("marked-entry-output", "marked-entry-output", "a marked entry (index %d) produced output on a replica: %s", e.Index, outString(renderOut(ms)))
@@ -513,6 +536,9 @@ func (r *c07Run) compareWithTwin(out *c07Out, when string) {
 	want := ircserver.VerifDump(tw.irc)
 	if unk, _ := stateDiffC07(want, out.Dump); unk != "" {
 		r.violate("state-differs", "state-differs:"+unk, "%s: the node that crashed and restarted differs from a replica that saw the entry already marked (poisoned indexes %v):\n%s", when, r.panic, firstDiff(want, out.Dump))
+		if strings.Contains(unk, "lastClientMessageId") {
+			r.res.Violate("C10", "marker-diverged", "marker-diverged-after-crash", fmt.Sprintf("%s: the duplicate-detection marker of the node that crashed at the poisoned entry and restarted differs from a replica that saw the entry already marked (poisoned indexes %v):\n%s", when, r.panic, firstDiff(want, out.Dump)), 0)
+		}
 	}
 	for p := range r.died {
 		if s, ok := out.Outputs[fmt.Sprint(p)]; ok && s != "" {
